@@ -273,6 +273,7 @@ def c07c08 (forCuts : Bool) (op : String) (args : List Sexp) : Verdict :=
       let expect : Except String (Option Intact × String) :=
         match c.expectSx with
         | .atom "raw" => .ok (none, "raw")
+        | .list [.atom "biglen"] => .ok (none, "raw-biglen")
         | .list [.atom "reject", .atom why] => .ok (none, why)
         | .list (.atom kind :: rest) =>
           if kind != "valid" ∧ kind != "validd" then .error "expectation" else
@@ -344,10 +345,11 @@ def c07c08 (forCuts : Bool) (op : String) (args : List Sexp) : Verdict :=
             -- oracle
             let orc : Option String :=
               if res == "panic" then some s!"ReadFile panicked ({m.describe})" else
+              if res == "overalloc" then some s!"ReadFile allocated more than 64 MiB for a declared length the input does not back ({m.describe})" else
               match intact with
               | some it => judgeValid c it m del res ov
               | none =>
-                if why == "raw" ∨ why == "hugelen" then none
+                if why == "raw" ∨ why == "raw-biglen" then none
                 else if res != "err" then some s!"damaged header ({why}) accepted: result {res}"
                 else if !del.isEmpty then some s!"damaged header ({why}): records delivered" else none
             match orc with
@@ -364,7 +366,6 @@ def c07c08 (forCuts : Bool) (op : String) (args : List Sexp) : Verdict :=
               let mdel := o.delivered.map renderGoVal
               let mres := resClass o.res
               if mres == "fuel" then worse (.bad "model out of fuel")
-              else if why == "hugelen" then (acc.1, acc.2 + 1)   -- known-finding region: only the oracle runs
               else if mres != res ∨ mdel != del then
                 -- a damaged block accepted with other content than the independent decompressor yields
                 let damagedPayload : Bool := match m, intact with
